@@ -655,7 +655,10 @@ def run_impl(case):
             return [type(e).__name__]
 
     def look():
-        return [snap(), panel("inputs"), panel("outputs")]
+        # the panels are read BEFORE the maps: reading wf.inputs_map / wf.outputs_map normalises the stored map (a bare
+        # None becomes the disabled marker), and what the panels show must not depend on somebody having looked
+        p_in, p_out = panel("inputs"), panel("outputs")
+        return [snap(), p_in, p_out]
 
     def chan(d, c, l):
         if c not in wf.children:
